@@ -107,6 +107,13 @@ def run(ctx: C.Ctx):
             continue
         ctx.count(f"{fm['desc']['basis']}/{fm['desc']['opt']}")
         check_model(ctx, fm, idx)
+    # training data stored as integers (counts, raw images): Identity keeps that dtype in its basis matrix
+    for idx in range(ctx.scale(25, 300)):
+        fm = recon.gen_model(ctx, rng, bases=["identity"], opts=["qr"], want_tall=True, force_dtype=rng.choice(["int64", "int32", "uint8"]))
+        if fm is None:
+            continue
+        ctx.count("integer_training_data")
+        check_model(ctx, fm, 10 ** 6 + idx)
     ctx.extra["worst_normalised_error"] = float(ctx.extra.get("worst_normalised_error", 0.0))
 
 
